@@ -310,10 +310,17 @@ def check(run):
         specs, t, gamma, pts, psd = setup(rng, quick, lmax=2)
         gamma = -np.abs(gamma) @ np.abs(gamma).T * 0.01
         fields_case(run, specs, t, gamma, pts, "general", False, 0.25)
+    from checks import c09 as _c09
+    _c09.positional_arguments_case(run, rng, only=('density',))
     representation_cases(run)
 
 
 def replay(run, rep):
+    if rep.get("case") == "positional":
+        from checks import c09 as _c09
+        n0_ = len(run.violations)
+        _c09.positional_arguments_case(run, run.rng, only=('density',))
+        return len(run.violations) == n0_
     n0 = len(run.violations)
     specs = specs_from(rep)
     t = None if rep.get("transform") is None else np.array(rep["transform"])
